@@ -149,7 +149,7 @@ func TestC15(t *testing.T) {
 		modelSigs := map[string]c15Stored{} // storage key -> last stored signature object
 		var hist []string
 		note := func(f string, a ...interface{}) { hist = append(hist, fmt.Sprintf(f, a...)) }
-		validVerified, mutationsChecked, republish := 0, 0, 0
+		validVerified, mutationsChecked, republish, storedAtLinkKey, linkAtStorageKey := 0, 0, 0, 0, 0
 
 		checkLinks := func(what string) {
 			for key, want := range modelLinks {
@@ -209,7 +209,9 @@ func TestC15(t *testing.T) {
 				ref := refIDs[rapid.IntRange(0, len(refIDs)-1).Draw(t, "ref")]
 				key := sha256hex(ref)
 				if rapid.IntRange(0, 3).Draw(t, "rawKey") == 0 {
-					key = []string{"", "k", key + "x", strings.ToUpper(key), strings.ToUpper(key[:8]) + key[8:], " " + key}[rapid.IntRange(0, 5).Draw(t, "rk")]
+					// (the key is any string the sender likes, also one that is the storage key of a signature)
+					key = []string{"", "k", key + "x", strings.ToUpper(key), strings.ToUpper(key[:8]) + key[8:], " " + key,
+						sha256hex(addrs[0] + ":" + ref), sha256hex(addrs[1] + ":" + ref)}[rapid.IntRange(0, 7).Draw(t, "rk")]
 				}
 				val := links[rapid.IntRange(0, len(links)-1).Draw(t, "link")]
 				_, existed := modelLinks[key]
@@ -222,6 +224,9 @@ func TestC15(t *testing.T) {
 					}
 				} else if res.OK() {
 					modelLinks[key] = val
+					if len(key) == 64 && key != sha256hex(ref) && key == strings.ToLower(key) {
+						linkAtStorageKey++
+					}
 				}
 				checkLinks("after publish")
 			},
@@ -256,6 +261,10 @@ func TestC15(t *testing.T) {
 				}
 				js, _ := json.Marshal(map[string]string{"signature": sig, "algorithm": alg, "certificate": cert})
 				storageKey := sha256hex(addr + ":" + ref)
+				if rapid.IntRange(0, 7).Draw(t, "linkKeyAsStorageKey") == 0 {
+					storageKey = sha256hex(ref) // a signature stored under what is also the key of a payload link
+					storedAtLinkKey++
+				}
 				res, _ := RunSigMsg(v, &sigtypes.MsgStoreSignature{Creator: KeyAcc(2).Addr.String(), StorageKey: storageKey, SignatureJSON: string(js)})
 				note("store key=%s addr=%q ref=%.8s link=%q tamper=%d ok=%v err=%v", key.Name, addr, ref, link, mut, res.OK(), errStr(res))
 				if res.OK() {
@@ -299,6 +308,9 @@ func TestC15(t *testing.T) {
 		var cl []string
 		if validVerified > 0 {
 			cl = append(cl, "valid_record_verified")
+		}
+		if storedAtLinkKey > 0 || linkAtStorageKey > 0 {
+			cl = append(cl, "link_and_signature_keys_coincide")
 		}
 		if republish > 0 {
 			cl = append(cl, "republish_attempted")
